@@ -28,6 +28,11 @@ degree, W and De as in the textbook).  Equal to Zhou -> fine (PSD demanded); equ
 matrix -> key "...|weighted=True,non-unit-weights|not-textbook-or-not-PSD"; equal to neither ->
 "...|neither-textbook-nor-known-defect" (a VIOLATION even while the known finding is open).
 
+Kind "scale": a handful of large hypergraphs whose sizes are a function of idx only and cross the narrow-dtype boundaries
+(127/128, 255/256, a few hundred): two edges of 330-340 members sharing 270, nested edges of 127..257 and 300 members, a hub of
+degree > 300, 260 and 130 parallel edges, pairs with multiplicity 127..257, hubs of degree 127..257.  Same definitions, accumulated
+edge by edge into int64 / float64 arrays; every function except adjacency_tensor (n^(d+1) memory); key trigger starts with "scale,".
+
 Kind "stale": the whole battery on a network, then 1-3 in-place edits through the public API that
 keep the node-ID set and the edge-ID set (add_node_to_edge, remove_node_from_edge, a changed weight,
 remove_edge + add_edge of other members under the same ID), then the whole battery again against the
@@ -41,6 +46,7 @@ from scipy.sparse import issparse
 
 from .. import ops, snap
 from ..env import xgi
+from ..monitor import short
 
 XGIError = xgi.exception.XGIError
 
@@ -72,6 +78,8 @@ ASSUMPTIONS = [
     "the known finding is recognised only when the result equals, within 1e-9, the matrix computed with the unweighted vertex degree; any other deviation in the same input class has its own key",
     "empty edges (order -1) occur in ~6% of the hypergraphs for all functions except the normalized Laplacian",
     "the `weight` callback of incidence_matrix is not part of the statement and is left at its default",
+    "kind scale: adjacency_tensor is not driven (memory n^(d+1)); |e & f| for all pairs is X^T X in int64 on the oracle's own incidence array, cross-checked against set intersections on 3000 seeded pairs; "
+    "tolerances are relative to the largest expected entry (1e-9 entries, 1e-7 row sums / lambda_min); OpenBLAS is set to one thread for speed only",
     "argument types: order, s and the elements of orders are passed as Python int (about 5/8 of the calls), np.int64, np.int32, np.intp or (for 0 / 1) Python bool; "
     "multiorder weights also as np.float64 / np.float32 / np.int64 / bool; the flags sparse / weighted / rescale_per_node / normalized as np.bool_ in 8% of the calls; the oracle uses the plain values. "
     "A failure whose result differs from the same call with plain Python arguments gets the trigger tag 'numpy-or-bool-argument'",
@@ -91,8 +99,8 @@ FUNCS = (
 
 def plan(tier):
     if tier == "quick":
-        return {"random": 280, "degenerate": 70, "stale": 60}
-    return {"random": 40000, "degenerate": 8000, "stale": 6000}
+        return {"random": 250, "degenerate": 70, "stale": 52, "scale": 6}
+    return {"random": 40000, "degenerate": 8000, "stale": 6000, "scale": 96}
 
 
 def floors(tier):
@@ -106,17 +114,20 @@ def floors(tier):
         "psd-checked": 1500 if q else 200000,
         "row-sums-checked": 1500 if q else 200000,
         "degenerate:no-edge-of-order": 1000,
-        "shape:no-nodes": 8, "shape:nodes-only": 8, "shape:uniform": 20, "shape:isolated-nodes": 40, "shape:multi-edges": 40, "shape:singletons": 40,
+        "shape:no-nodes": 5, "shape:nodes-only": 5, "shape:uniform": 20, "shape:isolated-nodes": 40, "shape:multi-edges": 40, "shape:singletons": 40,
         "normalized:weighted=True,unit-weights": 30, "normalized:weighted=True,non-unit-weights": 30, "normalized:weighted=False": 60,
         "normalized:rejected-isolates": 20,
         "adjacency:s>1-and-count>=s": 30,
         "normalized:weighted=True,zero-weight-present": 25, "normalized:weighted=True,numpy-scalar-weights": 15,
-        "stale:completed": 50, "stale:members-changed": 25,
+        "stale:completed": 26, "stale:members-changed": 18,
+        "scale:completed": 3, "scale:edge-size>=256": 1, "scale:intersection>=256": 1, "scale:degree>=256": 2, "scale:multiplicity>=256": 1,
+        "scale:degree>=128": 2, "scale:multiplicity>=128": 1, "scale:intersection>=128": 1,
+        **{f"scale:fn:{n}": 4 for n in FUNCS if n != "adjacency_tensor"}, "scale:fn:intersection_profile": 20, "scale:fn:adjacency_matrix": 100,
         "argtype:order:numpy.int64": 3000, "argtype:order:numpy.int32": 1500, "argtype:order:builtins.bool": 600,
         "argtype:s:numpy.int64": 2000, "argtype:s:numpy.int32": 1000, "argtype:s:builtins.bool": 300,
         "argtype:orders:numpy.int64": 800, "argtype:orders:numpy.int32": 400, "argtype:orders:builtins.bool": 100,
         "argtype:weights:numpy.float64": 800, "argtype:weights:numpy.int64": 200, "argtype:sparse:numpy.bool": 1000,
-        **{f"stale:first-edit:{m}": 8 for m in MUTATIONS},
+        **{f"stale:first-edit:{m}": 5 for m in MUTATIONS},
     })
     f.update({f"labels:{k}": 15 for k in LABEL_KINDS})
     return f
@@ -893,9 +904,380 @@ def run_stale(mon, idx, rng):
         mon.sample(f"stale: {desc}; edits {edits}; now {snap.pretty(H)}")
 
 
+# ---------------------------------------------------------------------------------
+# kind "scale": sizes that cross narrow-dtype boundaries (127/128, 255/256, a few hundred)
+# ---------------------------------------------------------------------------------
+SCALE_SHAPES = ("two-huge-edges", "nested-boundary-edges", "hub-300", "parallel-260-and-130", "boundary-multiplicities", "boundary-degree-hubs")
+SCALE_S = (1, 2, 127, 128, 129, 130, 131, 255, 256, 257, 260, 261)
+
+
+def build_scale(rng, idx):
+    """Sizes are a function of idx only (shape = idx % 6, growth = idx // 6); rng shuffles insertion orders and picks labels."""
+    shape, v = SCALE_SHAPES[idx % len(SCALE_SHAPES)], idx // len(SCALE_SHAPES)
+    lk = ("int", "str", "gap")[idx % 3]
+    N = 460 + 4 * v
+    labels = {"int": list(range(N)), "str": [f"n{i}" for i in range(N)], "gap": [7 * i - 300 for i in range(N)]}[lk]
+    rng.shuffle(labels)
+    edges, weights = [], None
+    if shape == "two-huge-edges":
+        a, b, ov = 330 + 3 * v, 340 + 2 * v, 270 + v
+        edges = [labels[:a], labels[a - ov: a - ov + b], labels[:3], labels[1:3], labels[a - 1: a + 2]]
+    elif shape == "nested-boundary-edges":
+        edges = [labels[:k] for k in (127, 128, 129, 255, 256, 257, 300 + 5 * v)] + [labels[250:262], labels[255:257]]
+    elif shape == "hub-300":
+        hub = labels[0]
+        edges = [[hub, x] for x in labels[1: 301 + 2 * v]] + [[hub, labels[1]]] * 130 + [[hub, labels[2], labels[3]]] * 3
+        weights = "non-unit"
+    elif shape == "parallel-260-and-130":
+        a, b, c = labels[:3]
+        edges = [[a, b]] * (260 + v) + [[a, b, c]] * (130 + v) + [[c, labels[3]], [labels[3], labels[4], labels[5]]]
+    elif shape == "boundary-multiplicities":
+        edges = []
+        for j, mult in enumerate((127, 128, 129, 255, 256, 257)):
+            edges += [[labels[2 * j], labels[2 * j + 1]]] * mult
+        edges += [[labels[0], labels[2], labels[4]]] * (3 + v)
+    else:  # boundary-degree-hubs: stars of exactly these degrees over one common pool of leaves
+        degs = (127, 128, 129, 256, 257 + v)
+        hubs, leaves = labels[: len(degs)], labels[len(degs): len(degs) + 300 + v]
+        for hub, deg in zip(hubs, degs):
+            edges += [[hub, x] for x in leaves[:deg]]
+        edges += [[leaves[0], leaves[128], leaves[257]]]
+        weights = "zero-some"
+    rng.shuffle(edges)
+    H = xgi.Hypergraph()
+    used = list(dict.fromkeys(x for e in edges for x in e))
+    if idx % 2:
+        pre = list(used)
+        rng.shuffle(pre)
+        H.add_nodes_from(pre)
+    ids = list(range(len(edges))) if idx % 4 < 2 else [f"e{j}" for j in rng.sample(range(len(edges)), len(edges))]
+    w = {}
+    for j, (e, i) in enumerate(zip(edges, ids)):
+        attr = {}
+        if weights == "non-unit" and j % 3 == 0:
+            attr["weight"] = (2, 0.5, 5, np.float64(1.5))[j % 4]
+        elif weights == "zero-some" and j % 5 == 0 and len(e) == 2 and j > 0:
+            attr["weight"] = (0, 0.0, 3)[j % 3]
+        H.add_edge(list(e), idx=i, **attr)
+        w[i] = attr.get("weight", 1)
+    return H, w, f"scale shape={shape} idx={idx} labels={lk} nodes={len(used)} edges={len(edges)} sizes={sorted({len(e) for e in edges})}", shape
+
+
+class Scale:
+    """The same definitions as Truth, vectorised: everything is accumulated from members() into int64 / float64 arrays."""
+
+    def __init__(self, mon, rng, H, weights, desc):
+        self.mon, self.rng, self.H, self.w, self.desc = mon, rng, H, weights, desc
+        self.nodes = list(H.nodes)
+        self.mem = {e: frozenset(m) for e, m in H.edges.members(dtype=dict).items()}
+        self.eids = list(self.mem)
+        self.n, self.m = len(self.nodes), len(self.eids)
+        self.pos = {v: i for i, v in enumerate(self.nodes)}
+        self.epos = {e: j for j, e in enumerate(self.eids)}
+        self.ix = {e: np.array(sorted(self.pos[v] for v in self.mem[e]), dtype=np.int64) for e in self.eids}
+        self.X = np.zeros((self.n, self.m), dtype=np.int64)
+        for e, ix in self.ix.items():
+            self.X[ix, self.epos[e]] = 1
+        self.orders = sorted({len(m) - 1 for m in self.mem.values()})
+        self._C = {}
+        self.failed = False
+
+    def of(self, order):
+        return [e for e in self.eids if order is None or len(self.mem[e]) - 1 == order]
+
+    def shared(self, order):
+        """C[u, v] = number of edges (of the order) containing both, u != v; accumulated edge by edge (grouped by member set)."""
+        if order not in self._C:
+            C = np.zeros((self.n, self.n), dtype=np.int64)
+            groups = {}
+            for e in self.of(order):
+                groups[self.mem[e]] = groups.get(self.mem[e], 0) + 1
+            for ms, mult in groups.items():
+                ix = np.array([self.pos[v] for v in ms], dtype=np.int64)
+                C[np.ix_(ix, ix)] += mult
+            np.fill_diagonal(C, 0)
+            self._C[order] = C
+        return self._C[order]
+
+    def degree(self, order):
+        K = np.zeros(self.n, dtype=np.int64)
+        for e in self.of(order):
+            K[self.ix[e]] += 1
+        return K
+
+    def laplacian(self, order, rescale):
+        L = (order * np.diag(self.degree(order)) - self.shared(order)).astype(float)
+        return L / order if rescale else L
+
+    def normalized(self, weights, unweighted_dv=False):
+        dv = np.zeros(self.n)
+        A = np.zeros((self.n, self.n))
+        for e in self.eids:
+            ix = self.ix[e]
+            dv[ix] += 1.0 if unweighted_dv else float(weights[e])
+            A[np.ix_(ix, ix)] += float(weights[e]) / len(ix)
+        d = 1 / np.sqrt(dv)
+        return np.eye(self.n) - d[:, None] * A * d[None, :]
+
+    # -- plumbing ------------------------------------------------------------------
+    def fire(self, fn, trig, clause, call, text):
+        self.failed = True
+        self.mon.fail(f"{fn}|scale,{trig}|{clause}", f"{call}: {short(text, 400)}", f"{call}\non a hypergraph built as: {self.desc}")
+
+    def perm(self, d, targets, index):
+        """Index array that reorders the oracle's rows into the returned order, or None (map is not a bijection onto targets)."""
+        if not bijection(d, len(targets), targets):
+            return None
+        return np.array([index[d[i]] for i in range(len(targets))], dtype=np.int64)
+
+    def square(self, fn, trig, call, M, rd, E, tol):
+        if M.shape != (self.n, self.n):
+            return self.fire(fn, trig, "shape-wrong", call, f"shape {M.shape}, expected {(self.n, self.n)}") or True
+        p = self.perm(rd, self.nodes, self.pos)
+        if p is None:
+            return self.fire(fn, trig, "index-map-wrong", call, "index map is not a bijection onto the nodes") or True
+        E = E[np.ix_(p, p)]
+        if not np.all(np.isfinite(M)) or not np.allclose(M, E, rtol=0, atol=tol):
+            i, j = np.unravel_index(np.argmax(np.nan_to_num(np.abs(M - E), nan=np.inf)), M.shape)
+            return self.fire(fn, trig, "entries-wrong", call, f"entry ({rd[i]!r}, {rd[j]!r}) is {M[i, j]}, expected {E[i, j]} (max |expected| = {np.abs(E).max()})") or True
+        return False
+
+    def pair(self, fn, trig, call, res):
+        self.mon.ev()
+        self.mon.note("sparse==dense")
+        a, b = dense(res[True][0]), dense(res[False][0])
+        if a.shape != b.shape or not np.allclose(a, b, rtol=0, atol=1e-9, equal_nan=True) or tuple(res[True][1:]) != tuple(res[False][1:]):
+            self.fire(fn, trig, "sparse!=dense", call, f"max |sparse - dense| = {np.abs(a - b).max() if a.shape == b.shape else 'shape'}")
+
+    def lap(self, fn, trig, call, M, rd, E, rows, nonneg):
+        scale = max(1.0, float(np.abs(E).max()))
+        if self.square(fn, trig, call, M, rd, E, 1e-9 * scale):
+            return
+        if not np.allclose(M, M.T, rtol=0, atol=1e-9 * scale):
+            return self.fire(fn, trig, "not-symmetric", call, "not symmetric")
+        if rows:
+            self.mon.note("row-sums-checked")
+            if np.abs(M.sum(axis=1)).max() > 1e-7 * scale:
+                return self.fire(fn, trig, "row-sums-nonzero", call, f"max |row sum| = {np.abs(M.sum(axis=1)).max()}")
+        if nonneg:
+            self.mon.note("psd-checked")
+            lm = lam_min(M)
+            if lm < -1e-7 * scale:
+                self.fire(fn, trig, "not-PSD", call, f"lambda_min = {lm}")
+
+    def seen(self, fn):
+        self.mon.ev()
+        self.mon.note(f"fn:{fn}")
+        self.mon.note(f"scale:fn:{fn}")
+
+    # -- the battery ---------------------------------------------------------------
+    def run(self):
+        H, mon = self.H, self.mon
+        small = [o for o in self.orders if o <= 3]
+        big = [o for o in self.orders if o > 3]
+        orders = [None] + small[:2] + big[:2] + [max(self.orders) + 1]
+        # |e & f| for all pairs: sum_v X[v, e] X[v, f] in int64, cross-checked against set intersections on a seeded sample of pairs
+        P = self.X.T @ self.X
+        for _ in range(min(3000, self.m * self.m)):
+            i, j = self.rng.randrange(self.m), self.rng.randrange(self.m)
+            assert P[i, j] == len(self.mem[self.eids[i]] & self.mem[self.eids[j]]), "oracle self-check failed"
+        for order in orders:
+            E = self.of(order)
+            trig = "order=None" if order is None else "order=int"
+            res, resP = {}, {}
+            for sp in (True, False):
+                call = f"incidence_matrix(H, order={order}, sparse={sp}, index=True)"
+                r = res[sp] = xgi.incidence_matrix(H, order=order, sparse=sp, index=True)
+                self.seen("incidence_matrix")
+                M = dense(r[0])
+                if not E and M.shape == (0, 0) and r[1] == {} and r[2] == {}:
+                    pass
+                elif M.shape != (self.n, len(E)):
+                    self.fire("incidence_matrix", trig, "shape-wrong", call, f"shape {M.shape}, expected {(self.n, len(E))}")
+                else:
+                    pr, pc = self.perm(r[1], self.nodes, self.pos), self.perm(r[2], E, self.epos)
+                    if pr is None or pc is None:
+                        self.fire("incidence_matrix", trig, "index-map-wrong", call, "maps are not bijections onto nodes / edges of the order")
+                    elif not np.array_equal(M, self.X[np.ix_(pr, pc)]):
+                        self.fire("incidence_matrix", trig, "entries-wrong", call, f"{int((M != self.X[np.ix_(pr, pc)]).sum())} entries differ")
+                call = f"intersection_profile(H, order={order}, sparse={sp}, index=True)"
+                r = resP[sp] = xgi.intersection_profile(H, order=order, sparse=sp, index=True)
+                self.seen("intersection_profile")
+                M = dense(r[0])
+                if not E and M.shape == (0, 0) and r[1] == {}:
+                    pass
+                elif M.shape != (len(E), len(E)):
+                    self.fire("intersection_profile", trig, "shape-wrong", call, f"shape {M.shape}, expected {(len(E), len(E))}")
+                else:
+                    pc = self.perm(r[1], E, self.epos)
+                    if pc is None:
+                        self.fire("intersection_profile", trig, "index-map-wrong", call, "map is not a bijection onto the edges of the order")
+                    elif not np.array_equal(M, P[np.ix_(pc, pc)]):
+                        X = P[np.ix_(pc, pc)]
+                        i, j = np.unravel_index(np.argmax(np.abs(M - X)), M.shape)
+                        self.fire("intersection_profile", trig, "entries-wrong", call, f"entry ({r[1][i]!r}, {r[1][j]!r}) is {M[i, j]}, expected |e & f| = {X[i, j]}")
+            self.pair("incidence_matrix", trig, f"incidence_matrix(H, order={order})", res)
+            self.pair("intersection_profile", trig, f"intersection_profile(H, order={order})", resP)
+            if not E:
+                continue
+            # degree
+            K, rd = xgi.degree_matrix(H, order=order, index=True)
+            self.seen("degree_matrix")
+            p = self.perm(rd, self.nodes, self.pos)
+            if p is None or np.asarray(K).shape != (self.n,):
+                self.fire("degree_matrix", trig, "index-map-wrong", f"degree_matrix(H, order={order}, index=True)", "shape or index map wrong")
+            elif not np.array_equal(np.asarray(K), self.degree(order)[p]):
+                self.fire("degree_matrix", trig, "entries-wrong", f"degree_matrix(H, order={order}, index=True)", f"max degree returned {np.max(K)}, expected {self.degree(order).max()}")
+            # adjacency
+            C = self.shared(order)
+            cmax = int(C.max())
+            for s_ in [x for x in SCALE_S if x <= cmax + 1]:
+                for w in (False, True):
+                    Eadj = np.where(C >= s_, C if w else 1, 0)
+                    res = {}
+                    for sp in (True, False):
+                        call = f"adjacency_matrix(H, order={order}, sparse={sp}, s={s_}, weighted={w}, index=True)"
+                        r = res[sp] = xgi.adjacency_matrix(H, order=order, sparse=sp, s=s_, weighted=w, index=True)
+                        self.seen("adjacency_matrix")
+                        M = dense(r[0])
+                        if M.shape == (self.n, self.n) and not np.array_equal(M, M.T):
+                            self.fire("adjacency_matrix", f"weighted={w}", "not-symmetric", call, "not symmetric")
+                        elif M.shape == (self.n, self.n) and np.any(np.diag(M) != 0):
+                            self.fire("adjacency_matrix", f"weighted={w}", "nonzero-diagonal", call, "non-zero diagonal")
+                        else:
+                            self.square("adjacency_matrix", f"weighted={w}", call, M, r[1], Eadj, 0)
+                    self.pair("adjacency_matrix", f"weighted={w}", f"adjacency_matrix(H, order={order}, s={s_}, weighted={w})", res)
+        # clique motif
+        res = {}
+        for sp in (True, False):
+            r = res[sp] = xgi.clique_motif_matrix(H, sparse=sp, index=True)
+            self.seen("clique_motif_matrix")
+            self.square("clique_motif_matrix", "any", f"clique_motif_matrix(H, sparse={sp}, index=True)", dense(r[0]), r[1], self.shared(None), 0)
+        self.pair("clique_motif_matrix", "any", "clique_motif_matrix(H)", res)
+        # Laplacians
+        lorders = [o for o in (small + big[:2]) if o >= 1][:4] + [max(self.orders) + 1]
+        for order in lorders:
+            for resc in (False, True):
+                E = self.laplacian(order, resc)
+                res = {}
+                for sp in (True, False):
+                    call = f"laplacian(H, order={order}, sparse={sp}, rescale_per_node={resc}, index=True)"
+                    r = res[sp] = xgi.laplacian(H, order=order, sparse=sp, rescale_per_node=resc, index=True)
+                    self.seen("laplacian")
+                    if r[1] == {} and not self.of(order):
+                        if np.any(dense(r[0]) != 0) or dense(r[0]).shape != (self.n, self.n):
+                            self.fire("laplacian", "degenerate:no-edge-of-order", "entries-wrong", call, "expected the zero matrix")
+                    else:
+                        self.lap("laplacian", f"rescale_per_node={resc}", call, dense(r[0]), r[1], E, True, True)
+                self.pair("laplacian", f"rescale_per_node={resc}", f"laplacian(H, order={order}, rescale_per_node={resc})", res)
+        present = [o for o in lorders if self.of(o)]
+        for orders_, ws in ((present, [1, 0.5, 2, 1.5][: len(present)]), (present[:1] + [max(self.orders) + 1], [2.0, 1.0]), (present[::-1], [np.float64(0.25), 0, 3, 1][: len(present)])):
+            for resc in (False, True):
+                E = np.zeros((self.n, self.n))
+                for d, w in zip(orders_, ws):
+                    K = self.degree(d)
+                    if K.any():
+                        E += float(w) * self.laplacian(d, resc) / K.mean()
+                res = {}
+                for sp in (True, False):
+                    call = f"multiorder_laplacian(H, {orders_}, {ws}, sparse={sp}, rescale_per_node={resc}, index=True)"
+                    r = res[sp] = xgi.multiorder_laplacian(H, list(orders_), list(ws), sparse=sp, rescale_per_node=resc, index=True)
+                    self.seen("multiorder_laplacian")
+                    self.lap("multiorder_laplacian", f"rescale_per_node={resc}", call, dense(r[0]), r[1], E, True, True)
+                self.pair("multiorder_laplacian", f"rescale_per_node={resc}", f"multiorder_laplacian(H, {orders_}, {ws}, rescale_per_node={resc})", res)
+        # normalized Laplacian (no isolated node and no empty edge by construction)
+        nonunit = any(x != 1 for x in self.w.values())
+        for w in (False, True):
+            wts = self.w if w else {e: 1 for e in self.eids}
+            cls = "weighted=False" if not w else ("weighted=True,non-unit-weights" if nonunit else "weighted=True,unit-weights")
+            E = self.normalized(wts)
+            res = {}
+            for sp in (True, False):
+                call = f"normalized_hypergraph_laplacian(H, weighted={w}, sparse={sp}, index=True)"
+                r = res[sp] = xgi.normalized_hypergraph_laplacian(H, weighted=w, sparse=sp, index=True)
+                self.seen("normalized_hypergraph_laplacian")
+                M = dense(r[0])
+                if w and nonunit:
+                    p = self.perm(r[1], self.nodes, self.pos)
+                    if M.shape != (self.n, self.n) or p is None:
+                        self.fire("normalized_hypergraph_laplacian", cls, "index-map-wrong", call, "shape or index map wrong")
+                    elif not np.allclose(M, M.T, rtol=0, atol=1e-9):
+                        self.fire("normalized_hypergraph_laplacian", cls, "not-symmetric", call, "not symmetric")
+                    elif np.allclose(M, E[np.ix_(p, p)], rtol=0, atol=1e-9):
+                        self.mon.note("psd-checked")
+                        if lam_min(M) < -1e-7:
+                            self.fire("normalized_hypergraph_laplacian", cls, "not-PSD", call, f"lambda_min = {lam_min(M)}")
+                    elif np.allclose(M, self.normalized(wts, unweighted_dv=True)[np.ix_(p, p)], rtol=0, atol=1e-9):
+                        # exactly the known defect: the known key, WITHOUT the scale tag (same mechanism at every size)
+                        self.mon.fail(f"normalized_hypergraph_laplacian|{cls}|{KNOWN_CLAUSE}", f"{call}: the result is exactly the matrix built with the UNWEIGHTED vertex degree; lambda_min = {lam_min(M)}",
+                                      f"{call}\non a hypergraph built as: {self.desc}")
+                    else:
+                        self.fire("normalized_hypergraph_laplacian", cls, "neither-textbook-nor-known-defect", call, f"max |got - Zhou| = {np.abs(M - E[np.ix_(p, p)]).max()}")
+                else:
+                    self.lap("normalized_hypergraph_laplacian", cls, call, M, r[1], E, False, True)
+            self.pair("normalized_hypergraph_laplacian", cls, f"normalized_hypergraph_laplacian(H, weighted={w})", res)
+
+
+_BLAS_SINGLE = None
+
+
+def single_thread_blas():
+    """Performance only (no decision depends on it): with the default thread count one eigvalsh of a 460 x 460 matrix takes seconds
+    on a loaded 16-core box (thread oversubscription) and 10 ms with one thread.  threadpoolctl is not installed, so the bundled
+    OpenBLAS is told directly."""
+    global _BLAS_SINGLE
+    if _BLAS_SINGLE is None:
+        import ctypes
+
+        _BLAS_SINGLE = []
+        try:
+            with open("/proc/self/maps") as f:
+                paths = {line.split()[-1] for line in f if "openblas" in line and ".so" in line}
+            for path in paths:
+                lib = ctypes.CDLL(path)
+                for name in ("openblas_set_num_threads", "openblas_set_num_threads64_", "scipy_openblas_set_num_threads", "scipy_openblas_set_num_threads64_"):
+                    try:
+                        getattr(lib, name)(1)
+                        _BLAS_SINGLE.append(name)
+                    except AttributeError:
+                        pass
+        except Exception:
+            pass
+    return _BLAS_SINGLE
+
+
+def run_scale(mon, idx, rng):
+    single_thread_blas()
+    H, weights, desc, shape = build_scale(rng, idx)
+    sc = Scale(mon, rng, H, weights, desc)
+    # cheap structural sanity instead of snap.inv (which is quadratic in attribute reads): two-way incidence from the views
+    ms = H.nodes.memberships()
+    if set(ms) != set(sc.nodes) or any((e in ms[v]) != (v in m) for e, m in sc.mem.items() for v in list(m)[:3]) or sum(map(len, ms.values())) != sum(map(len, sc.mem.values())):
+        mon.note("discarded:invalid-start-state")
+        return
+    mon.note(f"scale:shape:{shape}")
+    P_max = max(len(m) for m in sc.mem.values())
+    pairs = {}
+    for m in sc.mem.values():
+        pairs[m] = pairs.get(m, 0) + 1
+    big = sorted(sc.mem.values(), key=len)[-2:]
+    inter = len(big[0] & big[-1]) if len(big) == 2 else P_max
+    for name, val in (("edge-size", P_max), ("intersection", inter), ("degree", int(sc.degree(None).max())), ("multiplicity", max(pairs.values()))):
+        for bound in (128, 256):
+            if val >= bound:
+                mon.note(f"scale:{name}>={bound}")
+    mon.nontrivial(("scale", desc))
+    sc.run()
+    mon.note("scale:completed")
+    if not sc.failed:
+        mon.sample(desc)
+
+
 def run_case(mon, kind, idx, rng):
     if kind == "stale":
         return run_stale(mon, idx, rng)
+    if kind == "scale":
+        return run_scale(mon, idx, rng)
     H, weights, desc, lk = build(rng, kind, idx)
     bad = snap.inv(H)
     if bad:
